@@ -19,7 +19,9 @@ for sid in ids:
         r = sh(f"patch -p1 -F3 --no-backup-if-mismatch -d {REPO} < {d}/patch.diff")
         if r.returncode:
             sh(f"git -C {REPO} checkout -- ."); sh(f"git -C {REPO} clean -fdq apischema")
-            print(sid, "patch does not apply:", (r.stdout + r.stderr)[:200]); continue
+            print(sid, "patch does not apply:", (r.stdout + r.stderr)[:200])
+            meta["detected_by"] = []; meta["does_not_apply"] = True       # (never keep the verdict of an earlier tree: port the patch)
+            json.dump(meta, open(os.path.join(d, "meta.json"), "w"), indent=1); continue
         meta["applied_with_fuzz"] = True
     ran = []
     try:
